@@ -817,7 +817,7 @@ func init() {
 	extraEngines["faultenum"] = RunFaultEnumShard
 	extraReplayers["faultenum"] = RunFaultScenario
 	profiles["C12"] = map[string]int{"ins": 30, "del": 16, "get": 8, "iter": 3, "seek": 4, "diff": 5, "clone": 3, "cur": 5, "persist": 10, "reload": 10, "fork": 3, "restart": 2}
-	propTable["C12"] = PropInfo{Engine: "faultenum", Level: "fault_enumeration", QuickS: 16, ThorS: 480,
+	propTable["C12"] = PropInfo{Engine: "faultenum", Level: "fault_enumeration", QuickS: 24, ThorS: 600,
 		Rule: "one evaluation = one execution of (history prefix, covered op) — either a fault-free counting run or a run with exactly one seam call of that op failing (Persist.Load error / not-found, KeyCompare, Marshal, Unmarshal at call index i, every i up to 24 per kind); non-trivial = the fault fired and the op returned an error (so the unchanged-tree and retry oracles were evaluated) or absorbed it; distinct = hash of (config, prefix op kinds/keys, fault kind, call index)",
 		Assumptions: []string{"every single fault per operation is enumerated (first 24 call indexes per kind); pairs of faults of different kinds are sampled (6 per op)", "a panic under an injected fault is counted, not reported: the property speaks of calls that return an error"},
 	}
